@@ -1127,6 +1127,10 @@ func (broker *Broker) startTrack(wg *sync.WaitGroup) {
 				// If the Q is still not empty, don't block when looking for a
 				// new payload to receive
 				wait = time.After(time.Second)
+			} else if in == nil {
+				// Everything was handed on and the input is closed: receiving on
+				// a nil channel without a timeout would block forever
+				return
 			}
 		}
 		payload = nil
